@@ -21,6 +21,8 @@
                                                                   for the t-th pair (a_t, j_t) of fhist r   (L part)
          with the SAME histories and permutation as the forward phase: the forward phase replays on b what the
          factorisation did to the rows.  Also: cols, and k+1 <= index[k] <= min (k+1+m1) n (what band_fwd_trace needs).
+   band_solve_phases : band_solve B b = Ok x  went through exactly shift_rows, this main loop, this forward phase and this
+         back substitution; D0 of the shifted matrix is the dense twin [dense_entry B] of Proofs/Banded.v.
    Every statement about these loops -- at the rounded reals (Proofs/Round2BandB.v) as at any other instance -- reduces
    to a statement about one left fold per entry. *)
 From Coq Require Import List Arith Lia Bool.
@@ -716,3 +718,99 @@ Proof.
 Qed.
 
 End DecTrace.
+
+(* ---------------------------------------------------------------- order of the stages inside a history *)
+Section HistSorted.
+Context {A : Arith}.
+Local Open Scope nat_scope.
+(* the stages of a history are strictly increasing *)
+Lemma fhist_sorted n m1 (al : matrix A) (index : list nat) k i t1 t2 :
+  t1 < t2 -> t2 < length (fhist n m1 al index k i) ->
+  snd (nth t1 (fhist n m1 al index k i) (zero, 0)) < snd (nth t2 (fhist n m1 al index k i) (zero, 0)).
+Proof.
+  revert i t1 t2. induction k as [|k IH]; intros i t1 t2 H12 H2; cbn [fhist] in *; [cbn in H2; lia|].
+  destruct ((k <? i) && (i <? fwin n m1 k)); [|now apply IH].
+  set (h := fhist n m1 al index k (swp k (fpiv index k) i)) in *.
+  rewrite app_length in H2. cbn [length] in H2.
+  destruct (Nat.lt_ge_cases t2 (length h)) as [L|G].
+  - rewrite !app_nth1 by lia. now apply IH.
+  - assert (t2 = length h) as -> by lia. rewrite (app_nth1 _ _ _ H12).
+    rewrite app_nth2, Nat.sub_diag by lia. cbn [nth snd].
+    apply (fhist_tags n m1 al index k (swp k (fpiv index k) i)). apply nth_In. exact H12.
+Qed.
+
+Lemma nth_firstn_lt {X} (l : list X) t t' d : t' < t -> nth t' (firstn t l) d = nth t' l d.
+Proof.
+  revert t t'. induction l as [|a l IH]; intros [|t] [|t'] H; cbn; try lia; auto. apply IH. lia.
+Qed.
+End HistSorted.
+
+(* ================================================================ band_solve is exactly these phases *)
+Section Phases.
+Context {A : Arith}.
+Notation T := (T A).
+Notation matrix := (matrix A).
+Notation banded := (banded A).
+
+(* the dense reading of the shifted work matrix is the dense twin of the banded matrix *)
+Lemma D0_dense (B : banded) (au0 : matrix) :
+  (forall r s, s < bm1 B + bm2 B + 1 ->
+     mat_at au0 (bm1 B + bm2 B + 1) r s = shifted (compact B) (bm1 B + bm2 B + 1) (bm1 B) r s) ->
+  forall i c, D0 (bm1 B + bm2 B + 1) (bm1 B) au0 i c = dense_entry B i c.
+Proof.
+  intros H i c. unfold D0, dense_entry, in_band, out_of_band, band_slot, cslot.
+  set (m1 := bm1 B) in *. set (m2 := bm2 B) in *. set (mm := m1 + m2 + 1) in *.
+  destruct (Nat.leb_spec (i - m1) c) as [L1|L1]; cbn [andb].
+  - destruct (Nat.ltb_spec (c - (i - m1)) mm) as [L2|L2].
+    + rewrite H by exact L2. unfold shifted.
+      destruct (Nat.ltb_spec i m1) as [Li|Li].
+      * replace (c - (i - m1)) with c in * by lia.
+        destruct (Nat.ltb_spec c (mm - (m1 - i))) as [L3|L3].
+        -- replace (i + m2 <? c) with false by (symmetry; apply Nat.ltb_ge; unfold mm in *; lia).
+           replace (c + m1 <? i) with false by (symmetry; apply Nat.ltb_ge; lia). cbn [orb negb].
+           unfold mat_at. f_equal. lia.
+        -- replace (i + m2 <? c) with true by (symmetry; apply Nat.ltb_lt; unfold mm in *; lia).
+           reflexivity.
+      * replace (i + m2 <? c) with false by (symmetry; apply Nat.ltb_ge; unfold mm in *; lia).
+        replace (c + m1 <? i) with false by (symmetry; apply Nat.ltb_ge; lia). cbn [orb negb].
+        unfold mat_at. f_equal. lia.
+    + replace (i + m2 <? c) with true by (symmetry; apply Nat.ltb_lt; unfold mm in *; lia). reflexivity.
+  - replace (c + m1 <? i) with true by (symmetry; apply Nat.ltb_lt; lia). rewrite orb_true_r. reflexivity.
+Qed.
+
+Theorem band_solve_phases_lemma (B : banded) (b x : list T) :
+  (forall z : T, eqb z zero = true -> z = zero) ->
+  wfB B -> length b = bn B -> bm1 B <= bn B ->
+  band_solve B b = Ok x ->
+  exists (au0 au al : matrix) (index : list nat) (d : T) (y : list T) (l1 l2 l3 : nat),
+    shift_rows (bm1 B) (bm1 B + bm2 B + 1) (compact B) = Ok au0 /\
+    for_ 0 (bn B) (dec_step false (bn B) (bm1 B + bm2 B + 1))
+         (au0, mat_new (bn B) (bm1 B) zero, repeat 0 (bn B), one, bm1 B) = Ok (au, al, index, d, l1) /\
+    for_ 0 (bn B) (fwd_step (bn B) al index) (b, bm1 B) = Ok (y, l2) /\
+    for_rev 0 (bn B) (back_step (bm1 B + bm2 B + 1) au) (y, 1) = Ok (x, l3) /\
+    cols au0 = bm1 B + bm2 B + 1 /\ cols au = bm1 B + bm2 B + 1 /\ cols al = bm1 B /\ length y = bn B /\
+    (forall k, k < bn B -> k + 1 <= nth k index 0 /\ nth k index 0 <= fwin (bn B) (bm1 B) k) /\
+    (forall i c, D0 (bm1 B + bm2 B + 1) (bm1 B) au0 i c = dense_entry B i c).
+Proof.
+  intros Hz Hwf Hb Hm1 H. pose proof Hwf as (HwfM & Hrows & Hcols).
+  unfold band_solve, band_solve_gen in H.
+  destruct (negb (bn B =? length b)); [discriminate|].
+  apply bind_ok in H as ([[[au al] index] d] & Edec & H).
+  apply bind_ok in H as ([y l2] & Efwd & H).
+  apply bind_ok in H as ([x' l3] & Eback & H). injection H as <-. cbn [fst] in *.
+  unfold decompose_gen in Edec.
+  apply bind_ok in Edec as (au0 & Eshift & Edec).
+  apply bind_ok in Edec as ([[[[au' al'] index'] d'] l1] & Eloop & Edec). injection Edec as <- <- <- <-.
+  pose proof Eshift as Es2.
+  apply (shift_rows_Ok_inv _ _ (bm1 B + bm2 B + 1) (bm1 B)) in Es2 as (Hc0 & Hau0); auto; [|lia].
+  assert (Hcl0 : cols (mat_new (bn B) (bm1 B) (@zero A)) = bm1 B) by reflexivity.
+  destruct (band_dec_trace_lemma Hz (bn B) (bm1 B + bm2 B + 1) (bm1 B) au0 _ _ _ _ _ _ _ _ Hc0 Hcl0 ltac:(lia) Hm1 Eloop)
+    as (Hc' & Hcl' & Hix & _).
+  exists au0, au', al', index', d', y, l1, l2, l3.
+  split; [exact Eshift|]. split; [exact Eloop|]. split; [exact Efwd|]. split; [exact Eback|].
+  split; [exact Hc0|]. split; [exact Hc'|]. split; [exact Hcl'|]. split.
+  - unfold for_ in Efwd. apply fwd_loop_length in Efwd. cbn [fst] in Efwd. congruence.
+  - split; [exact Hix|]. now apply D0_dense.
+Qed.
+
+End Phases.
